@@ -380,7 +380,7 @@ K_ROM = dict(name="K-core::rom", package="rustzx-core", features="full", harness
              assumptions=CORE_ASSUME + ["ROM *contents*: load_default_rom / load_rom_binary_16k_pages copy whole pages into rom_page_data_mut(page) (one copy_from_slice / read_exact per page, read from source); a Kani harness comparing against the embedded images crashed CBMC (status 139) and was dropped"])
 
 K_INPUT = dict(name="K-core::input", package="rustzx-core", features="full",
-               harnesses=["key_table_and_send_key", "sinclair_table_and_send", "compound_keys", "kempston_joy", "kempston_mouse"],
+               harnesses=["key_table_and_send_key", "sinclair_table_and_send", "compound_keys", "kempston_joy", "kempston_mouse", "mouse_events_reach_device", "kempston_events_reach_device"],
                functions={"key_table_and_send_key": ["ZXKey::row_id", "ZXKey::mask", "ZXKey::half_port", "ZXController::send_key"],
                           "sinclair_table_and_send": ["sinclair_event_to_zx_key", "ZXController::send_sinclair_key"],
                           "compound_keys": ["CompoundKey::modifier_mask/modifier_key/primary_key", "ZXController::send_compound_key"],
